@@ -1,13 +1,17 @@
-"""Run the checks against every kept seeded change (by hand; not a registered check).
+"""Run the checks against every kept seeded (property-breaking) change (by hand; not a registered check).
 
-For each /verif/seeded/<id>/patch.diff: /repo must be clean; the patch is applied with `git -C /repo apply`, every checker's
-quick rules are run (no evidence written), and the patch is undone straight afterwards (`git -C /repo checkout -- .`).
-Writes /verif/seeded/<id>/result.json and prints one line per seed.
-usage: /venv/bin/python tools/run_seeds.py [id-prefix ...]
+For each /verif/seeded/<id>/patch.diff: the patch is applied in a scratch git worktree of /repo's HEAD created under a temporary
+directory (never in /repo itself), every checker's quick rules are run with `--repo <worktree>` (no evidence written), and the
+worktree is reset.  The worktrees are removed at the end.  Writes /verif/seeded/<id>/result.json and prints one line per seed.
+(The same can be done by hand in /repo: `git -C /repo apply <patch>`, run the checks, `git -C /repo checkout -- .`.)
+usage: /venv/bin/python tools/run_seeds.py [id-prefix ...] [-j N]
 """
 import json
 import subprocess
 import sys
+import tempfile
+import threading
+from concurrent.futures import ThreadPoolExecutor
 from pathlib import Path
 
 V = Path("/verif")
@@ -18,35 +22,65 @@ def sh(cmd, **kw):
     return subprocess.run(cmd, capture_output=True, text=True, **kw)
 
 
-assert sh(["git", "-C", "/repo", "status", "--porcelain"]).stdout.strip() == "", "/repo is not clean"
-sel = sys.argv[1:]
-rows = []
-for d in sorted((V / "seeded").iterdir()):
-    if not (d / "patch.diff").exists() or (sel and not any(d.name.startswith(s) for s in sel)):
-        continue
-    pid = d.name.split("-")[0]
-    res = {"seed": d.name, "property": pid}
-    ap = sh(["git", "-C", "/repo", "apply", str(d / "patch.diff")])
-    if ap.returncode != 0:
-        res["applies"] = False
-        res["note"] = ap.stderr.strip()[:200]
-    else:
-        res["applies"] = True
-        try:
+args = sys.argv[1:]
+jobs = 5
+if "-j" in args:
+    jobs = int(args[args.index("-j") + 1])
+    del args[args.index("-j"): args.index("-j") + 2]
+sel = args
+head = sh(["git", "-C", "/repo", "rev-parse", "HEAD"]).stdout.strip()
+tmp = Path(tempfile.mkdtemp(prefix="mxverif-seeds-"))
+pool = []
+for i in range(jobs):
+    wt = tmp / f"w{i}"
+    r = sh(["git", "-C", "/repo", "worktree", "add", "-q", "--detach", str(wt), head])
+    assert r.returncode == 0, r.stderr
+    pool.append(wt)
+lock = threading.Lock()
+
+
+def one(d: Path):
+    with lock:
+        wt = pool.pop()
+    try:
+        sh(["git", "-C", str(wt), "reset", "-q", "--hard"])
+        sh(["git", "-C", str(wt), "clean", "-fdq", "src"])
+        pid = d.parent.name.split("-")[0]
+        ap = sh(["git", "-C", str(wt), "apply", str(d)])
+        if ap.returncode != 0:
+            ap = sh(["git", "-C", str(wt), "apply", "-3", str(d)])  # cut against an earlier HEAD: three-way
+            if ap.returncode == 0 and sh(["git", "-C", str(wt), "grep", "-l", "-e", "^<<<<<<< ", "--", "src"]).stdout.strip():
+                ap.returncode = 1
+                ap.stderr = "three-way merge left conflicts"
+        res = {"seed": d.parent.name, "property": pid, "applies": ap.returncode == 0, "evaluated_at_repo_commit": head}
+        if ap.returncode == 0:
             det = {}
             for c in ALL:
-                v = sh(["./vcheck", c, "--no-evidence", "--no-selftest"], cwd=str(V))
+                v = sh(["./vcheck", c, "--repo", str(wt), "--no-evidence", "--no-selftest"], cwd=str(V))
                 if v.returncode != 0:
-                    det[c] = {"exit": v.returncode,
-                              "reports": [l.strip()[:220] for l in v.stdout.splitlines() if l.startswith(("  [", "ANALYSIS-ERROR"))][:5]}
+                    det[c] = {"exit": v.returncode, "reports": [l.strip()[:220] for l in v.stdout.splitlines() if l.startswith(("  [", "ANALYSIS-ERROR"))][:5]}
             res["detected_by"] = det
             res["own_check_exit"] = det.get(pid, {}).get("exit", 0)
-        finally:
-            sh(["git", "-C", "/repo", "checkout", "--", "."])
-    (d / "result.json").write_text(json.dumps(res, indent=1))
-    rows.append(res)
-    own = res.get("own_check_exit")
-    others = {k: v["exit"] for k, v in res.get("detected_by", {}).items() if k != pid}
-    first = (res.get("detected_by", {}).get(pid, {}).get("reports") or [""])[0]
-    print(f"{d.name:42s} applies={res['applies']} own={own} others={others} {first[:110]}")
-assert sh(["git", "-C", "/repo", "status", "--porcelain"]).stdout.strip() == "", "/repo left dirty!"
+        else:
+            res["note"] = ap.stderr.strip()[:200]
+        (d.parent / "result.json").write_text(json.dumps(res, indent=1))
+        return d.parent.name, res
+    finally:
+        sh(["git", "-C", str(wt), "reset", "-q", "--hard"])
+        sh(["git", "-C", str(wt), "clean", "-fdq", "src"])
+        with lock:
+            pool.append(wt)
+
+
+try:
+    diffs = [d for d in sorted((V / "seeded").glob("*/patch.diff")) if not sel or any(d.parent.name.startswith(s) for s in sel)]
+    with ThreadPoolExecutor(jobs) as ex:
+        for name, res in ex.map(one, diffs):
+            pid = res["property"]
+            others = {k: v["exit"] for k, v in res.get("detected_by", {}).items() if k != pid}
+            first = (res.get("detected_by", {}).get(pid, {}).get("reports") or [""])[0]
+            print(f"{name:46s} applies={res['applies']} own={res.get('own_check_exit')} others={others} {first[:100]}")
+finally:
+    for wt in list(tmp.glob("w*")):
+        sh(["git", "-C", "/repo", "worktree", "remove", "--force", str(wt)])
+    sh(["rm", "-rf", str(tmp)])
